@@ -248,7 +248,8 @@ class Model:
 
 def chain(models, case_sensitive: bool = True):
     """Priority union: fold of add_record(merge=True). Returns Model or None when a record bridges two."""
-    rv = Model([], ":")
+    models = list(models)
+    rv = Model([], models[0].delimiter if models else ":")   # the first converter has priority, its CURIE syntax included
     for m in models:
         for r in m.records:
             outcome, _ = rv.add_record(r, case_sensitive=case_sensitive, merge=True)
@@ -259,4 +260,4 @@ def chain(models, case_sensitive: bool = True):
 
 def subconverter(model: Model, prefixes) -> Model:
     prefixes = set(prefixes)
-    return Model([r for r in model.records if any(p in prefixes for p in r.prefixes)], ":")
+    return Model([r for r in model.records if any(p in prefixes for p in r.prefixes)], model.delimiter)
